@@ -12,4 +12,4 @@ ASSUMPTIONS = ["G1: every point of a cell is within largest_center_to_vertex_dis
 def units():
     table = [Unit("bsd_table_strictly_decreasing", "verif_c16::bsd_table_strictly_decreasing", ["SMALLER_EDGE2OPEDGE_DIST"], "start-depth table (C05 anchor): strictly decreasing, each limit more than twice the next, ratios decreasing towards 2 (transcription guard; the geometric meaning of the entries is not decided)", level="P"),
              Unit("bsd_contract", "verif_c16::bsd_contract", ["best_starting_depth"], "best_starting_depth(r) = deepest depth whose limit exceeds r, all doubles (shared with C16)", level="P")]
-    return recur_units() + [threshold_unit(), full_flag_unit()] + table
+    return recur_units() + [threshold_unit(), threshold_struct_unit(), full_flag_unit()] + table
